@@ -29,7 +29,7 @@ structure RootPlain (cx : Ctx) (st : GState) : Prop where
   noIgnoreMissing : cx.cfg.common.ignoreMissing = false
   autoMap : cx.cfg.autoMap = []
   noUpdate : cx.updateTarget = false
-  noRaw : ∀ m ∈ st.methods, m.cfg.rawFieldSettings = [] ∨ (isPtrTy m.source = false ∧ isPtrTy m.target = false)
+  noRaw : RawOK cx st
 
 theorem mapField_cfg (c : Converter) (cx : Ctx) (st : GState) (rp : RootPlain cx st) (t : Ty) (sfs : Fields) (name : S)
     (hsf : inFSFields sfs = true) (hdot : (fieldCfgOf cx t name).source.contains '.' = false) :
@@ -607,7 +607,8 @@ theorem buildMethod_cfg (c : Converter) (idx : Nat) (av : List Ty) (st : GState)
   simp [hup, extendIndex_nil c hext, indexGet_nil, get, getThe, MonadStateOf.get, StateT.get, set, StateT.set, pure, StateT.pure, Except.pure,
     bind, StateT.bind, Except.bind, hctor, hsrc, htgt, isPtr, under]
   rw [noLookup_cfg_root c _ { st with seen := [], useCtor := false } z sfs tfs [] f .build false hs ht (by omega) rfl hext hms hu hsk hz rfl
-    { noIgnoreCase := h1, noIgnoreMissing := h2, autoMap := h4, noUpdate := rfl, noRaw := hraw } rfl hsimple]
+    { noIgnoreCase := h1, noIgnoreMissing := h2, autoMap := h4, noUpdate := rfl,
+      noRaw := fun m' hm' => (hraw m' hm').elim .inl (fun h => .inr (.inl h)) } rfl hsimple]
   have ha : asgNL Mode.build = false := rfl
   rw [ha]
   cases genFCfg z m.cfg.fields false sfs tfs with
@@ -749,5 +750,231 @@ theorem genFieldsCfg_mapped_at (z : Bool) (cfg : List (S × FieldCfg)) (sfs : Fi
             | ok more =>
               rw [hr] at h; cases h
               simpa using genFieldsCfg_mapped_at z cfg sfs rest more hr j tf tty hi hig
+
+/-! ### pointer roots: a method `*S → *T`, `S → *T` or `*S → T` carries its field settings for the POINTEE struct
+
+`buildMethod` sets `FieldsTarget` to the pointee of a pointer-to-struct target; the Pointer / TargetPointer / SourcePointer rule
+wraps the struct conversion; `shouldCreateSubMethod` does not split off the struct pair inside the method whose own signature is a
+pointer variant of it; the overlapping-definitions check skips the method's own signature. -/
+
+inductive PtrRoot | ptrPtr | tgtPtr | srcPtr
+  deriving DecidableEq, Repr
+
+/-- the source type of the root: `*S` for Pointer and SourcePointer, `S` for TargetPointer -/
+def PtrRoot.src : PtrRoot → Fields → Ty
+  | .tgtPtr, sfs => .struct sfs
+  | _, sfs => .ptr (.struct sfs)
+
+/-- the target type of the root: `*T` for Pointer and TargetPointer, `T` for SourcePointer -/
+def PtrRoot.tgt : PtrRoot → Fields → Ty
+  | .srcPtr, tfs => .struct tfs
+  | _, tfs => .ptr (.struct tfs)
+
+/-- the plan node of the pointer rule, annotated with the pointee / target struct type -/
+def PtrRoot.wrap : PtrRoot → Fields → Conv → Conv
+  | .ptrPtr, tfs => Conv.ptrPtr (.struct tfs)
+  | .tgtPtr, tfs => Conv.tgtPtr (.struct tfs)
+  | .srcPtr, tfs => Conv.srcPtr (.struct tfs)
+
+/-- `*S → T` needs useZeroValueOnPointerInconsistency -/
+def PtrRoot.needsFlag : PtrRoot → Bool
+  | .srcPtr => true
+  | _ => false
+
+/-- the plan of a pointer root: the pointer rule around exactly the struct plan of `genFCfg` (in build position) -/
+def genFCfgRoot (r : PtrRoot) (z : Bool) (cfg : List (S × FieldCfg)) (sfs tfs : Fields) : Except Diag Conv :=
+  if r.needsFlag && !z then .error .typeMismatchPtr else (genFCfg z cfg false sfs tfs).map (r.wrap tfs)
+
+theorem plainUpTo_mono {ws : Bool} {N N' : Nat} (h : N' ≤ N) (ms : List GenMethod) (hp : plainUpTo ws N ms = true) :
+    plainUpTo ws N' ms = true := by
+  simp only [plainUpTo, List.all_eq_true] at hp ⊢
+  intro m hm
+  have := hp m hm
+  cases hu : m.updateTarget <;> simp [hu] at this ⊢
+  rcases this with h1 | h1
+  · exact .inl h1
+  · exact .inr (by omega)
+
+/-- the struct pair below a pointer root, through `conv` (lookup, no sub-method, then the root lemma) -/
+theorem conv_cfg_root (c : Converter) (cx : Ctx) (st : GState) (z : Bool) (sfs tfs : Fields) (path : List PathElem) (fuel : Nat)
+    (pp : Bool) (hs : inFSFields sfs = true) (ht : inFSFields tfs = true)
+    (hfuel : 2 * (tySize (.struct sfs) + tySize (.struct tfs)) + 1 ≤ fuel)
+    (hext : c.extend = [])
+    (hms : plainMethodsSUpTo (tySize (.struct sfs) + tySize (.struct tfs)) st.methods = true)
+    (hu : cx.cfg.common.useUnderlying = false) (hsk : cx.cfg.common.skipCopySameType = false)
+    (hz : cx.cfg.common.useZeroValue = z) (hc : st.useCtor = false) (rp : RootPlain cx st)
+    (hft : cx.fieldsTarget = .struct tfs) (hsimple : simpleCfg cx.cfg.fields = true) :
+    conv c fuel cx .build pp (.struct sfs) (.struct tfs) path st = ret (genFCfg z cx.cfg.fields false sfs tfs) st := by
+  obtain ⟨f, rfl⟩ : ∃ f, fuel = f + 1 := ⟨fuel - 1, by omega⟩
+  have hlk := lookup_none_of_plain true _ st.methods hms (.struct sfs) (.struct tfs) (by simpa [frag, inFS] using hs)
+    (by simpa [frag, inFS] using ht) (Nat.le_refl _) cx.available
+  rw [conv_step c f cx .build pp _ _ path st hext hlk (by simpa [inFS] using hs) (by simpa [inFS] using ht) hsk]
+  exact noLookup_cfg_root c cx st z sfs tfs path f .build pp hs ht (by omega) rfl hext
+    (plainUpTo_mono (ws := true) (Nat.sub_le _ 1) st.methods hms) hu hsk hz hc rp hft hsimple
+
+/-- **a pointer root**: `noLookup` on `*S → *T` / `S → *T` / `*S → T` is the pointer rule around `genFCfg` -/
+theorem noLookup_cfg_ptrRoot (r : PtrRoot) (c : Converter) (cx : Ctx) (st : GState) (z : Bool) (sfs tfs : Fields)
+    (path : List PathElem) (fuel : Nat) (mode : Mode) (pp : Bool) (hs : inFSFields sfs = true) (ht : inFSFields tfs = true)
+    (hfuel : 2 * (tySize (r.src sfs) + tySize (r.tgt tfs)) ≤ fuel)
+    (hext : c.extend = [])
+    (hms : plainMethodsSUpTo (tySize (.struct sfs) + tySize (.struct tfs)) st.methods = true)
+    (hu : cx.cfg.common.useUnderlying = false) (hsk : cx.cfg.common.skipCopySameType = false)
+    (hz : cx.cfg.common.useZeroValue = z) (hc : st.useCtor = false) (rp : RootPlain cx st)
+    (hft : cx.fieldsTarget = .struct tfs) (hsimple : simpleCfg cx.cfg.fields = true) :
+    noLookup c fuel cx mode pp (r.src sfs) (r.tgt tfs) path st = ret (genFCfgRoot r z cx.cfg.fields sfs tfs) st := by
+  have hS : inFS (.struct sfs) = true := by simpa [inFS] using hs
+  have hT : inFS (.struct tfs) = true := by simpa [inFS] using ht
+  cases r with
+  | ptrPtr =>
+    simp only [PtrRoot.src, PtrRoot.tgt, tySize] at hfuel ⊢
+    obtain ⟨f, rfl⟩ : ∃ f, fuel = f + 1 := ⟨fuel - 1, by omega⟩
+    rw [noLookup_ptrPtr c f cx mode pp path st hu hsk hc,
+      conv_cfg_root c cx st z sfs tfs path f true hs ht (by simp only [tySize]; omega) hext hms hu hsk hz hc rp hft hsimple, wrapRes_ret]
+    simp [genFCfgRoot, PtrRoot.needsFlag, PtrRoot.wrap]
+  | tgtPtr =>
+    simp only [PtrRoot.src, PtrRoot.tgt, tySize] at hfuel ⊢
+    obtain ⟨f, rfl⟩ : ∃ f, fuel = f + 1 := ⟨fuel - 1, by omega⟩
+    rw [noLookup_tgtPtr c f cx mode pp path st hu hsk hc _ _ hS rfl,
+      conv_cfg_root c cx st z sfs tfs path f false hs ht (by simp only [tySize]; omega) hext hms hu hsk hz hc rp hft hsimple, wrapRes_ret]
+    simp [genFCfgRoot, PtrRoot.needsFlag, PtrRoot.wrap]
+  | srcPtr =>
+    simp only [PtrRoot.src, PtrRoot.tgt, tySize] at hfuel ⊢
+    obtain ⟨f, rfl⟩ : ∃ f, fuel = f + 1 := ⟨fuel - 1, by omega⟩
+    cases hzz : z with
+    | true =>
+      rw [noLookup_srcPtr c f cx mode pp path st hu hsk hc _ _ hT rfl (by rw [hz, hzz]),
+        conv_cfg_root c cx st z sfs tfs path f true hs ht (by simp only [tySize]; omega) hext hms hu hsk hz hc rp hft hsimple,
+        wrapRes_ret]
+      simp [genFCfgRoot, PtrRoot.needsFlag, PtrRoot.wrap, hzz]
+    | false =>
+      rw [noLookup_srcPtr_off c f cx mode pp path st hu hsk _ _ hT rfl (by rw [hz, hzz])]
+      simp [genFCfgRoot, PtrRoot.needsFlag, ret]
+
+theorem genFCfgRoot_ok_iff (r : PtrRoot) (z : Bool) (cfg : List (S × FieldCfg)) (sfs tfs : Fields)
+    (hcorner : (sfs.length == 0 && tfs.length == 0) = false) :
+    (∃ p, genFCfgRoot r z cfg sfs tfs = .ok p) ↔ ((r.needsFlag = true → z = true) ∧ ConvertibleCfg z cfg sfs tfs) := by
+  have hcorner' : (!false && sfs.length == 0 && tfs.length == 0) = false := by simpa using hcorner
+  rw [← genFCfg_ok_iff z cfg false sfs tfs hcorner']
+  unfold genFCfgRoot
+  cases hf : (r.needsFlag && !z) with
+  | true =>
+    simp only [if_true]
+    simp only [Bool.and_eq_true, Bool.not_eq_true'] at hf
+    constructor
+    · rintro ⟨p, h⟩; cases h
+    · rintro ⟨h, _⟩; have := h hf.1; rw [hf.2] at this; cases this
+  | false =>
+    simp only [Bool.false_eq_true, if_false]
+    have hflag : r.needsFlag = true → z = true := by
+      intro h; rw [h] at hf; simpa using hf
+    constructor
+    · rintro ⟨p, h⟩
+      obtain ⟨q, hq, _⟩ := map_ok h
+      exact ⟨hflag, q, hq⟩
+    · rintro ⟨_, q, hq⟩; exact ⟨_, by rw [hq]; rfl⟩
+
+theorem genFCfgRoot_error (r : PtrRoot) (z : Bool) (cfg : List (S × FieldCfg)) (sfs tfs : Fields) (d : Diag)
+    (h : genFCfgRoot r z cfg sfs tfs = .error d) :
+    d = .typeMismatch ∨ d = .typeMismatchPtr ∨ d = .noMatch ∨ d = .cannotFind ∨ d = .unknownField := by
+  unfold genFCfgRoot at h
+  split at h
+  · cases h; exact .inr (.inl rfl)
+  · exact genFCfg_error z cfg false sfs tfs d (map_err h)
+
+/-- the plan of a pointer root passes the generalised plan checker -/
+theorem genFCfgRoot_checkedU (r : PtrRoot) (p : Program) (z : Bool) (cfg : List (S × FieldCfg))
+    (sfs tfs : Fields) (plan : Conv) (h : genFCfgRoot r z cfg sfs tfs = .ok plan)
+    (hs : inFSFields sfs = true) (ht : inFSFields tfs = true) (has : aliasFreeFields sfs = true) (hat : aliasFreeFields tfs = true)
+    (har : arrayElemFreeFields sfs = true) (hok : structsOK (.struct tfs) = true) :
+    checkTyU p plan (r.src sfs) (r.tgt tfs) = true := by
+  unfold genFCfgRoot at h
+  split at h
+  · cases h
+  · obtain ⟨q, hq, rfl⟩ := map_ok h
+    have hq' := genFCfg_checkedU p z cfg false sfs tfs q hq hs ht has hat har hok
+    cases r <;> simp [PtrRoot.wrap, PtrRoot.src, PtrRoot.tgt, checkTyU, under, beq_refl_ty, hq']
+
+theorem buildMethod_cfg_ptr (r : PtrRoot) (c : Converter) (idx : Nat) (av : List Ty) (st : GState) (m : GenMethod) (z : Bool)
+    (fuel : Nat) (sfs tfs : Fields)
+    (hm : st.methods[idx]? = some m) (hup : m.updateTarget = false) (hctor : m.cfg.constructor = none)
+    (hsrc : m.source = r.src sfs) (htgt : m.target = r.tgt tfs)
+    (hs : inFSFields sfs = true) (ht : inFSFields tfs = true)
+    (hfuel : 2 * (tySize (r.src sfs) + tySize (r.tgt tfs)) < fuel)
+    (hext : c.extend = [])
+    (hms : plainMethodsSUpTo (tySize (.struct sfs) + tySize (.struct tfs)) st.methods = true)
+    (hu : m.cfg.common.useUnderlying = false) (hsk : m.cfg.common.skipCopySameType = false)
+    (hz : m.cfg.common.useZeroValue = z)
+    (h1 : m.cfg.common.matchIgnoreCase = false) (h2 : m.cfg.common.ignoreMissing = false)
+    (h4 : m.cfg.autoMap = []) (hsimple : simpleCfg m.cfg.fields = true)
+    (hraw : ∀ m' ∈ st.methods, m'.cfg.rawFieldSettings = [] ∨ (isPtrTy m'.source = false ∧ isPtrTy m'.target = false) ∨
+      (m'.source = m.source ∧ m'.target = m.target)) :
+    buildMethod c fuel idx av st =
+      match genFCfgRoot r z m.cfg.fields sfs tfs with
+      | .ok plan => .ok ((), { st with methods := st.methods.modify idx (fun m => { m with body := some (.convert plan) }) })
+      | .error d => .error d := by
+  obtain ⟨f, rfl⟩ : ∃ f, fuel = f + 1 := ⟨fuel - 1, by omega⟩
+  unfold buildMethod
+  simp only [bind, StateT.bind, Except.bind, getMethod_some idx st m hm]
+  simp [hup, extendIndex_nil c hext, indexGet_nil, get, getThe, MonadStateOf.get, StateT.get, set, StateT.set, pure, StateT.pure, Except.pure,
+    bind, StateT.bind, Except.bind, hctor, hsrc, htgt]
+  rw [noLookup_cfg_ptrRoot r c _ { st with seen := [], useCtor := false } z sfs tfs [] f .build false hs ht (by omega) hext hms hu hsk hz rfl
+    { noIgnoreCase := h1, noIgnoreMissing := h2, autoMap := h4, noUpdate := rfl,
+      noRaw := fun m' hm' => by simpa [hsrc, htgt] using hraw m' hm' }
+    (by cases r <;> simp [PtrRoot.tgt, isPtr, isStruct, under]) hsimple]
+  cases genFCfgRoot r z m.cfg.fields sfs tfs with
+  | error d => rfl
+  | ok plan =>
+    simp [ret, modifyMethod, modify, modifyGet, MonadStateOf.modifyGet, StateT.modifyGet, pure, Except.pure]
+
+theorem setup_single_ptr (r : PtrRoot) (c : Converter) (d : Declared) (tfs : Fields) (hup : d.updateTarget = false)
+    (htgt : d.target = r.tgt tfs) : setup c [d] = .ok [declaredMethod d] := by
+  unfold setup
+  cases r <;>
+    simp [List.foldlM, bind, Except.bind, pure, Except.pure, hup, declaredMethod, List.mergeSort_singleton, htgt, PtrRoot.tgt, isStruct,
+      isPtr, under]
+
+theorem generate_single_cfg_ptr (r : PtrRoot) (c : Converter) (d : Declared) (z : Bool) (fuel rounds : Nat) (sfs tfs : Fields)
+    (hup : d.updateTarget = false) (hctor : d.cfg.constructor = none)
+    (hsrc : d.source = r.src sfs) (htgt : d.target = r.tgt tfs)
+    (hs : inFSFields sfs = true) (ht : inFSFields tfs = true)
+    (hfuel : 2 * (tySize (r.src sfs) + tySize (r.tgt tfs)) < fuel) (hrounds : 2 ≤ rounds)
+    (hext : c.extend = [])
+    (hu : d.cfg.common.useUnderlying = false) (hsk : d.cfg.common.skipCopySameType = false)
+    (hz : d.cfg.common.useZeroValue = z)
+    (h1 : d.cfg.common.matchIgnoreCase = false) (h2 : d.cfg.common.ignoreMissing = false)
+    (h4 : d.cfg.autoMap = []) (hsimple : simpleCfg d.cfg.fields = true) :
+    generate c [d] fuel rounds =
+      match genFCfgRoot r z d.cfg.fields sfs tfs with
+      | .ok plan => .ok [{ declaredMethod d with dirty := false, body := some (.convert plan) }]
+      | .error e => .error e := by
+  obtain ⟨rr, rfl⟩ : ∃ rr, rounds = rr + 2 := ⟨rounds - 2, by omega⟩
+  unfold generate
+  rw [setup_single_ptr r c d tfs hup htgt]
+  simp only [bind, Except.bind]
+  unfold buildDirty
+  simp [StateT.run, bind, StateT.bind, Except.bind, pure, StateT.pure, Except.pure, get, getThe, MonadStateOf.get, StateT.get,
+    declaredMethod, List.zipIdx, List.mergeSort_singleton, getMethod, modifyMethod, modify, modifyGet, MonadStateOf.modifyGet, StateT.modifyGet]
+  have hsz : tySize (.struct sfs) + tySize (.struct tfs) < tySize (r.src sfs) + tySize (r.tgt tfs) := by
+    cases r <;> simp [PtrRoot.src, PtrRoot.tgt, tySize] <;> omega
+  have hms : plainMethodsSUpTo (tySize (.struct sfs) + tySize (.struct tfs)) [{ declaredMethod d with dirty := false }] = true := by
+    simp [plainMethodsSUpTo, declaredMethod, hup, hsrc, htgt]
+    exact .inr hsz
+  have hraw : ∀ m' ∈ [{ declaredMethod d with dirty := false }],
+      m'.cfg.rawFieldSettings = [] ∨ (isPtrTy m'.source = false ∧ isPtrTy m'.target = false) ∨
+        (m'.source = ({ declaredMethod d with dirty := false } : GenMethod).source ∧
+         m'.target = ({ declaredMethod d with dirty := false } : GenMethod).target) := by
+    intro m' hm'; simp at hm'; subst hm'
+    exact .inr (.inr ⟨rfl, rfl⟩)
+  have hb := buildMethod_cfg_ptr r c 0 d.contexts
+    { methods := [{ declaredMethod d with dirty := false }], fileNames := [Facts.thisVar.toList], seen := [], useCtor := false }
+    { declaredMethod d with dirty := false } z fuel sfs tfs rfl hup hctor hsrc htgt hs ht hfuel hext hms hu hsk hz h1 h2 h4 hsimple hraw
+  simp only [declaredMethod] at hb
+  rw [hb]
+  cases genFCfgRoot r z d.cfg.fields sfs tfs with
+  | error e => rfl
+  | ok plan =>
+    simp only []
+    unfold buildDirty
+    simp [StateT.pure, pure, bind, StateT.bind, Except.bind, Except.pure, get, getThe, MonadStateOf.get, StateT.get, List.modify]
 
 end Gv.Gen
